@@ -199,6 +199,23 @@ def c20_4(c: Ctx) -> None:
             c.fail(u, f'returns {[U(r.value)[:40] for r in rets]}', 'the returned semaphore is not the registered one', node=st)
 
 
+@ob('C20.6', 'WMW', 'a registered semaphore is never removed from / replaced in the registry except by the get-or-create itself: a holder of a discarded semaphore object would '
+    'no longer be counted against the limit')
+def c20_6(c: Ctx) -> None:
+    owner = c.unit(HLP, '_get_or_create_semaphore')
+    ws = [w for w in c.cg.all_writes('GLOBAL_RETRY_SEMAPHORES') if w.unit.module in (HLP, SVC)]
+    c.floor(len(ws), 1, 'writes of GLOBAL_RETRY_SEMAPHORES')
+    mi = c.prog.module(HLP)
+    for n in ast.walk(mi.tree):
+        if isinstance(n, (ast.Delete,)) and c.prog.unit_of(n) is None and 'GLOBAL_RETRY_SEMAPHORES' in U(n):
+            c.fail('bubus/helpers.py <module>', f'module-level {U(n)[:60]}', 'registry entries are deleted at import time')
+    for w in ws:
+        if w.unit.key == owner.key and w.how == 'subscript' and isinstance(w.node, ast.Assign):
+            c.ok(where(owner, w.node), 'registry written only by get-or-create')
+        else:
+            c.fail(w.unit, f'registry mutated ({w.how}): {U(w.node)[:70]}', f'a registered semaphore is dropped / replaced in {w.unit.qualname}: calls still holding the old object are no longer counted, so more than semaphore_limit executions overlap', node=w.node)
+
+
 LOOP_BOUND = ('asyncio.Semaphore', 'asyncio.Event', 'asyncio.Lock', 'asyncio.Condition', 'asyncio.Queue', 'asyncio.Future')
 
 
